@@ -842,7 +842,7 @@ struct Arr {
     C* p;
     std::size_t n;    // characters
     std::size_t size; // allocated elements: n, or n + 1 when terminated
-    constexpr Arr(u64 packed, bool terminated) : p{nullptr}, n{0}, size{0}
+    [[gnu::noinline]] constexpr Arr(u64 packed, bool terminated) : p{nullptr}, n{0}, size{0}
     {
         while (n < 15 && ((packed >> (4 * n)) & 0xf) != 0) { ++n; }
         size = n + (terminated ? 1U : 0U);
@@ -850,11 +850,11 @@ struct Arr {
         for (std::size_t i = 0; i < n; ++i) { p[i] = unit<C>((packed >> (4 * i)) & 0xf); }
         if (terminated) { p[n] = C(0); }
     }
-    constexpr Arr(std::size_t count, C fill) : p{new C[count]}, n{count}, size{count}
+    [[gnu::noinline]] constexpr Arr(std::size_t count, C fill) : p{new C[count]}, n{count}, size{count}
     {
         for (std::size_t i = 0; i < count; ++i) { p[i] = fill; }
     }
-    constexpr ~Arr() { delete[] p; }
+    [[gnu::noinline]] constexpr ~Arr() { delete[] p; }
     Arr(Arr const&)                    = delete;
     auto operator=(Arr const&) -> Arr& = delete;
 };
@@ -865,7 +865,7 @@ constexpr auto seq_len(u64 packed) -> std::size_t
     return n;
 }
 template <typename C>
-constexpr auto hash_units(C const* p, std::size_t n) -> u64
+[[gnu::noinline]] constexpr auto hash_units(C const* p, std::size_t n) -> u64
 {
     u64 h = 1469598103934665603ULL;
     for (std::size_t i = 0; i < n; ++i) {
@@ -879,6 +879,24 @@ template <typename C>
 constexpr auto woff(C const* r, C const* base) -> long { return r == nullptr ? -1L : static_cast<long>(r - base); }
 constexpr auto min_sz(std::size_t a, std::size_t b) -> std::size_t { return a < b ? a : b; }
 
+// exclusion classes of the pinned tree (active only while the matching known finding is open):
+//   cstring.strncat.reads_src_count  strncat / wcsncat test *src before the count: a source array of exactly count
+//                                    characters (no terminator, allowed) is read one element past its end
+//   cwchar.wcscmp.int_overflow       wcscmp / wcsncmp return the difference of the first differing wide characters as int:
+//                                    signed overflow (not a constant expression, UBSan report at run time)
+//   cwchar.wmemmove.void_cast        wmemmove goes through void*: never a constant expression although declared constexpr
+inline auto wdiff_overflows(u64 xs, u64 ys, std::size_t n) -> bool
+{
+    for (std::size_t i = 0; i < n; ++i) {
+        auto const a = (xs >> (4 * i)) & 0xf;
+        auto const b = (ys >> (4 * i)) & 0xf;
+        auto const ca = a == 0 ? 0LL : static_cast<long long>(unit<wchar_t>(a));
+        auto const cb = b == 0 ? 0LL : static_cast<long long>(unit<wchar_t>(b));
+        if (ca != cb) { return ca - cb > INT_MAX || ca - cb < INT_MIN; }
+        if (a == 0) { return false; }
+    }
+    return false;
+}
     #define C13_WSTR(S, C)                                                                                                                       \
         using sv_##S  = etl::basic_string_view<C, etl::char_traits<C>>;                                                                          \
         using str_##S = etl::basic_inplace_string<C, 8>;                                                                                         \
@@ -918,7 +936,7 @@ C13_WSTR(wc, wchar_t)
         C13_FN2(ID, NAME, "wstring", WSeq<C>, Cnt, true, kNoTag,                                                                                 \
             [&] { Arr<C> a{x, seq_len(x) < y}; Arr<C> d{y, C(0x55)}; auto* r = F(d.p, a.p, y); return hash_units(d.p, y) ^ static_cast<u64>(r == d.p); }())
     #define C13_NCAT(ID, NAME, C, F)                                                                                                             \
-        C13_FN3(ID, NAME, "wstring", WSeq<C>, WSeq<C>, Cnt, true, kNoTag, [&] {                                                                  \
+        C13_FN3(ID, NAME, "wstring", WSeq<C>, WSeq<C>, Cnt, true, (seq_len(y) == z ? "cstring.strncat.reads_src_count" : kNoTag), [&] {            \
             Arr<C> a{y, seq_len(y) < z};                                                                                                         \
             auto const dl = seq_len(x);                                                                                                          \
             Arr<C> d{dl + min_sz(a.n, z) + 1, C(0x55)};                                                                                          \
@@ -935,8 +953,9 @@ C13_NCAT(strncat_x, "strncat", char, etl::strncat)
 C13_NCMP(strncmp_x, "strncmp_exact", char, etl::strncmp)
 C13_NCPY(wcsncpy_x, "wcsncpy", wchar_t, etl::wcsncpy)
 C13_NCAT(wcsncat_x, "wcsncat", wchar_t, etl::wcsncat)
-C13_NCMP(wcsncmp_x, "wcsncmp", wchar_t, etl::wcsncmp)
-C13_FN2(wcscmp_x, "wcscmp", "wstring", WSeq<wchar_t>, WSeq<wchar_t>, true, kNoTag, [&] { Arr<wchar_t> a{x, true}; Arr<wchar_t> b{y, true}; return sgn3(etl::wcscmp(a.p, b.p)); }())
+C13_FN3(wcsncmp_x, "wcsncmp", "wstring", WSeq<wchar_t>, WSeq<wchar_t>, Cnt, true, (wdiff_overflows(x, y, z) ? "cwchar.wcscmp.int_overflow" : kNoTag),
+    [&] { Arr<wchar_t> a{x, seq_len(x) < z}; Arr<wchar_t> b{y, seq_len(y) < z}; return sgn3(etl::wcsncmp(a.p, b.p, z)); }())
+C13_FN2(wcscmp_x, "wcscmp", "wstring", WSeq<wchar_t>, WSeq<wchar_t>, true, (wdiff_overflows(x, y, 16) ? "cwchar.wcscmp.int_overflow" : kNoTag), [&] { Arr<wchar_t> a{x, true}; Arr<wchar_t> b{y, true}; return sgn3(etl::wcscmp(a.p, b.p)); }())
 C13_FN1(wcslen_x, "wcslen", "wstring", WSeq<wchar_t>, true, kNoTag, [&] { Arr<wchar_t> a{x, true}; return etl::wcslen(a.p); }())
 C13_FN2(wcsstr_x, "wcsstr", "wstring", WSeq<wchar_t>, WSeq<wchar_t>, true, kNoTag,
     [&] { Arr<wchar_t> a{x, true}; Arr<wchar_t> b{y, true}; return woff(etl::wcsstr(static_cast<wchar_t const*>(a.p), static_cast<wchar_t const*>(b.p)), static_cast<wchar_t const*>(a.p)); }())
@@ -948,9 +967,9 @@ C13_FN3(wmemchr_x, "wmemchr", "wstring", WSeq<wchar_t>, WUnit<wchar_t>, Cnt, (z 
     [&] { Arr<wchar_t> a{x, false}; return woff(etl::wmemchr(static_cast<wchar_t const*>(a.p), unit<wchar_t>(y), z), static_cast<wchar_t const*>(a.p)); }())
 C13_FN2(wmemcpy_x, "wmemcpy", "wstring", WSeq<wchar_t>, Cnt, (y <= seq_len(x)), kNoTag,
     [&] { Arr<wchar_t> a{x, false}; Arr<wchar_t> d{y, wchar_t(0x55)}; auto* r = etl::wmemcpy(d.p, a.p, y); return hash_units(d.p, y) ^ static_cast<u64>(r == d.p); }())
-C13_FN2(wmemmove_up_x, "wmemmove_up", "wstring", WSeq<wchar_t>, Cnt, (y + 1 <= seq_len(x)), kNoTag,
+C13_FN2(wmemmove_up_x, "wmemmove_up", "wstring", WSeq<wchar_t>, Cnt, (y + 1 <= seq_len(x)), "cwchar.wmemmove.void_cast",
     [&] { Arr<wchar_t> a{x, false}; etl::wmemmove(a.p + 1, a.p, y); return hash_units(a.p, a.n); }())
-C13_FN2(wmemmove_down_x, "wmemmove_down", "wstring", WSeq<wchar_t>, Cnt, (y + 1 <= seq_len(x)), kNoTag,
+C13_FN2(wmemmove_down_x, "wmemmove_down", "wstring", WSeq<wchar_t>, Cnt, (y + 1 <= seq_len(x)), "cwchar.wmemmove.void_cast",
     [&] { Arr<wchar_t> a{x, false}; etl::wmemmove(a.p, a.p + 1, y); return hash_units(a.p, a.n); }())
 C13_FN2(wmemset_x, "wmemset", "wstring", WUnit<wchar_t>, Cnt, true, kNoTag,
     [&] { Arr<wchar_t> d{y, wchar_t(0x55)}; etl::wmemset(d.p, unit<wchar_t>(x), y); return hash_units(d.p, y); }())
